@@ -125,6 +125,8 @@ def establish1 : Handler
 /-- with two more arguments the list carries a second item (another session) after the first: `EstablishPDU` reads item [0] -/
 def establish : Handler
   | [rpp, nas, itemNas, transfer, _, _] => establish1 [rpp, nas, itemNas, transfer]
+  -- a fifth argument `u`: one more IE of an id the message's table does not have follows the list; the decoder skips it
+  | [rpp, nas, itemNas, transfer, _] => establish1 [rpp, nas, itemNas, transfer]
   | a => establish1 a
 
 end Extract
